@@ -236,6 +236,27 @@ pub fn hostile_input(rng: &mut Rng, id: i64) -> (Vec<u8>, String) {
             }
             (ber::encode_min(&n), format!("tree:{}", label))
         }
+        5 if rng.chance(1, 6) => {
+            // a valid message whose messageID INTEGER is padded beyond the eight octets a machine word holds: the value
+            // is 2^(8k) * junk + id, outside 0..maxInt, so this is not an LDAPMessage (and certainly not one for `id`)
+            let n = corpus_message(rng, id);
+            let n = match n {
+                Node::C { class, tag, mut kids } => {
+                    let k = 9 + rng.usize(8);
+                    let mut data = vec![0u8; k];
+                    data[0] = 1 + rng.below(0x7e) as u8;
+                    let idb = ber::int_content(id);
+                    let off = k - idb.len();
+                    data[off..].copy_from_slice(&idb);
+                    if !kids.is_empty() {
+                        kids[0] = Node::P { class: 0, tag: 2, data };
+                    }
+                    Node::C { class, tag, kids }
+                }
+                other => other,
+            };
+            (ber::encode_min(&n), "oversized-message-id".into())
+        }
         5 | 6 | 7 => {
             let n = corpus_message(rng, id);
             let mut b = ber::encode_min(&n);
